@@ -78,11 +78,15 @@ def _gen_one(w, s, tier):
     if multi:
         r = w.choice(unobs_rows)  # the policy only ever sees batch plates and unobserved plates
         rows.append([r[0] + "x", [["d0", 1.0], ["d1", 1.0]], 0.5, r[3], r[4]])  # a second sample on one plate
+    spec_extra = w.random() < 0.3
     k = w.randint(1, 4)
     if bigmode == "k":
         k = w.choice([9, 12, 33])
     small = pno <= 6
-    return dict(engine="batchsim", prop="C16", screen=dict(control="", arity=2, rows=rows), k=k, max_len=3 * k,
+    scr_spec = dict(control="", arity=2, rows=rows)
+    if spec_extra:
+        gen.add_space_extra(w, scr_spec)
+    return dict(engine="batchsim", prop="C16", screen=scr_spec, k=k, max_len=3 * k,
                 path=s.choice(["func", "func", "func-reveal", "cli", "cli-reveal"]), multi=multi, seed=s.randrange(2**31),
                 enumerate=(tier == "thorough" and pno <= 5 and s.random() < 0.3), ties=s.random() < 0.3,
                 score_regime=s.choice(["finite"] * 5 + ["neg-inf-winner", "inf-others", "huge", "all-inf-allowed", "all-inf-allowed"]))
